@@ -127,25 +127,16 @@ Proof.
                      unfold renewed_by. simpl. repeat split; reflexivity.
            ++ eapply full_answer_ok with (st := Some e) (hs := HsRevalidated) (m := GET) (r304 := r304);
                 [discriminate|exact Hinv|exact Egs|reflexivity|reflexivity].
-      * destruct (oa_status oa =? 304).
-        -- inversion Egs; subst st' resp eff; clear Egs. split; [|split].
-           ++ intros Hc. simpl in Hc. discriminate.
-           ++ unfold label_ok. simpl. split; discriminate.
-           ++ exact I.
-        -- eapply full_answer_ok with (st := None) (hs := HsMiss) (m := GET) (r304 := r304);
-             [discriminate|exact I|exact Egs|reflexivity|reflexivity].
+      * eapply full_answer_ok with (st := None) (hs := HsMiss) (m := GET) (r304 := r304);
+          [discriminate|exact I|exact Egs|reflexivity|reflexivity].
     + unfold other_step in Hstep.
       assert (Hmono : forall ev, match hs_entry s with Some e => entry_just (past ++ [ev]) e | None => True end).
       { intros ev. unfold inv in Hinv. destruct (hs_entry s); [apply entry_just_mono; exact Hinv|exact I]. }
-      destruct (oa_status oa =? 304); inversion Hstep; subst s' oev; clear Hstep; unfold inv; cbn [hs_entry].
-      * split; [|split].
-        -- intros Hc. simpl in Hc. discriminate.
-        -- unfold label_ok. simpl. split; discriminate.
-        -- apply Hmono.
-      * split; [|split].
-        -- intros Hc. simpl in Hc. discriminate.
-        -- unfold label_ok. cbn [ev_resp]. split; [intros H; exfalso; eapply relay_label_not_hit; exact H|discriminate].
-        -- apply Hmono.
+      inversion Hstep; subst s' oev; clear Hstep; unfold inv; cbn [hs_entry].
+      split; [|split].
+      * intros Hc. simpl in Hc. discriminate.
+      * unfold label_ok. cbn [ev_resp]. split; [intros H; exfalso; eapply relay_label_not_hit; exact H|discriminate].
+      * apply Hmono.
 Qed.
 
 (* ---- every event of every history ------------------------------------------------ *)
@@ -358,9 +349,8 @@ Proof.
       * destruct (r304 || (oa_status oa =? 304)); [inversion Hstep; subst; simpl in Hc; discriminate|].
         destruct (storable (hs_pol s) GET (oa_status oa) (oa_hv oa) (hs_now s));
           inversion Hstep; subst; simpl in Hc; discriminate.
-    + destruct (oa_status oa =? 304); [inversion Hstep; subst; simpl in Hc; discriminate|].
-      destruct (storable (hs_pol s) GET (oa_status oa) (oa_hv oa) (hs_now s));
+    + destruct (storable (hs_pol s) GET (oa_status oa) (oa_hv oa) (hs_now s));
         inversion Hstep; subst; simpl in Hc; discriminate.
   - unfold other_step in Hstep.
-    destruct (oa_status oa =? 304); inversion Hstep; subst; simpl in Hc; discriminate.
+    inversion Hstep; subst; simpl in Hc; discriminate.
 Qed.
